@@ -93,7 +93,8 @@ int main(int argc, char **argv) {
       int slot, di; size_t off, len;
       if (sscanf(line + 2, "%d %d %zu %zu", &slot, &di, &off, &len) != 4 || !hs[slot]) return 2;
       uint8_t *exact = malloc(len ? len : 1); memcpy(exact, data[di] + off, len); /* exactly len bytes: redzones right after */
-      blake3_hasher_update(hs[slot], len ? exact : (void *)1, len);
+      /* a zero-length update may come with a dangling pointer or with NULL (an empty std::vector's data()) */
+      blake3_hasher_update(hs[slot], len ? exact : ((off + (size_t)slot) % 2 ? (void *)1 : NULL), len);
       free(exact);
     } else if (op == 'F') {
       int slot; long long seek; size_t n; unsigned long long want;
